@@ -538,6 +538,11 @@ class Emitter:
                         lv = self.leaves_for(ta, n_.v) or self.leaves_for(tb, n_.v)
                         if lv is None and n_.v % 8 == 0:
                             lv = [(o_, 'uint64_t') for o_ in range(0, n_.v, 8)]
+                        if lv is not None and bare.startswith('llvm.memmove'):
+                            # the ranges may overlap: read everything first, then write (a forward element-wise copy is wrong when dst > src)
+                            rd = ' '.join('%s __mm%d = *(%s*)((P)%s + %d);' % (ct, k_, ct, args[1], o_) for k_, (o_, ct) in enumerate(lv))
+                            wr = ' '.join('*(%s*)((P)%s + %d) = __mm%d;' % (ct, args[0], o_, k_) for k_, (o_, ct) in enumerate(lv))
+                            return '{ %s %s }' % (rd, wr)
                         if lv is not None:
                             return ' '.join('*(%s*)((P)%s + %d) = *(%s*)((P)%s + %d);' % (ct, args[0], o_, ct, args[1], o_) for o_, ct in lv)
                     return '__vf_memcpy((P)%s, (P)%s, %s);' % (args[0], args[1], args[2])
